@@ -41,16 +41,17 @@ type Record struct {
 }
 
 type Config struct {
-	LoopBound     int            // default unwinding bound
-	LoopBounds    map[string]int // per function-name override ("pkg.Func" or "Func")
-	RecBound      int
-	MaxInstr      int64
-	Session       *solver.Session
-	InitPkgs      func(path string) bool // run this package's initialiser?
-	PruneBranch   bool
-	SkipInitFuncs func(pkgPath string) bool // do not run the user init() functions of these packages
-	ForkFuncs     map[string]bool           // functions executed path by path (no merging inside)
-	Trace         bool
+	LoopBound        int            // default unwinding bound
+	LoopBounds       map[string]int // per function-name override ("pkg.Func" or "Func")
+	RecBound         int
+	MaxInstr         int64
+	Session          *solver.Session
+	InitPkgs         func(path string) bool // run this package's initialiser?
+	PruneBranch      bool
+	SymbolicMapOrder bool                      // every range over a map visits its entries in an arbitrary (symbolic) order
+	SkipInitFuncs    func(pkgPath string) bool // do not run the user init() functions of these packages
+	ForkFuncs        map[string]bool           // functions executed path by path (no merging inside)
+	Trace            bool
 	// ExpectedPanic: message substrings that are not runtime errors of interest
 	Intrinsics map[string]Intrinsic
 }
